@@ -661,7 +661,9 @@ class ESME:
                 )
             return None
 
-        if isinstance(smpp_message, SubmitSmResp) and isinstance(original_message, SubmitSm):
+        if isinstance(smpp_message, (SubmitSmResp, GenericNack)) and isinstance(
+            original_message, SubmitSm
+        ):
             # Call throttling handler
             if header.command_status in (
                 SmppCommandStatus.ESME_RTHROTTLED,
